@@ -41,8 +41,11 @@ SetField(c, f, v) == CASE f = "ca"      -> [c EXCEPT !.ca = v]
                        [] f = "verify"  -> [c EXCEPT !.verify = v]
                        [] f = "require" -> [c EXCEPT !.require = v]
                        [] f = "skip"    -> [c EXCEPT !.skip = v]
-(* x is a context list (server side, u.pos >= 1) or the cluster's tls config record (upstream side, u.pos = 0) *)
-ApplyUpd(x, u) == IF u.pos = 0 THEN SetField(x, u.field, u.val) ELSE [x EXCEPT ![u.pos] = SetField(@, u.field, u.val)]
+                       [] f = "inspector" -> [c EXCEPT !.insp = v]
+(* x is a listener [ctxs, insp] (server side: u.pos >= 1 updates the context at pos, u.pos = 0 the listener's own
+   inspector flag) or the cluster's tls config record (upstream side, u.pos = 0) *)
+ApplyUpd(x, u) == IF u.pos = 0 THEN SetField(x, u.field, u.val) ELSE [x EXCEPT !.ctxs[u.pos] = SetField(@, u.field, u.val)]
+Listener(c) == [ctxs |-> c.ctxs, insp |-> c.insp]
 RECURSIVE ApplyAll(_, _)
 ApplyAll(x, us) == IF us = <<>> THEN x ELSE ApplyAll(ApplyUpd(x, Head(us)), Tail(us))
 
@@ -91,14 +94,14 @@ UpExpect(cfg, cert) == IF cfg.skip THEN "ok"
 
 (* ------------------------------------------------------------------ implementation-shaped model *)
 VARIABLES cs,       \* the case (configuration + update history + input)
-          live,     \* the configuration the running objects were built from (context list / cluster tls config)
+          live,     \* the configuration the running objects were built from (listener [ctxs, insp] / cluster tls config)
           todo,     \* updates not pushed yet
           pc, i, dflt, afirst, chosen, served, result
 vars == <<cs, live, todo, pc, i, dflt, afirst, chosen, served, result>>
 
 (* what the generated hash value covers (confighook.go GenerateHashValue): leaf certificate chain, ALPN, ClientAuth,
    ciphers/curves/versions - NOT the CA pools, the server name or InsecureSkipVerify *)
-HashCovered(f) == f \in {"names", "alpn", "verify", "require"}
+HashCovered(f) == f \in {"names", "alpn", "verify", "require", "inspector"}   \* (inspector: not a context field, always a rebuild)
 
 (* buildMatch: the set a context answers to *)
 Matches(c) == c.names
@@ -115,29 +118,33 @@ ImplAuth(c, p) == AuthByMode(ImplMode(c), c, p)
 Outcomes(e) == IF e = "any" THEN {"ok", "fail"} ELSE {e}
 
 Init == /\ cs \in SrvCases \cup UpCases
-        /\ live = (IF cs.side = "srv" THEN cs.ctxs ELSE cs.cfg) /\ todo = cs.upds
+        /\ live = (IF cs.side = "srv" THEN Listener(cs) ELSE cs.cfg) /\ todo = cs.upds
         /\ pc = "accept" /\ i = 0 /\ dflt = 0 /\ afirst = 0 /\ chosen = 0 /\ served = "-" /\ result = "-"
 
 Srv == cs.side = "srv"
-Ctxs == live                                  \* what the scan runs on
-RefCtxs == ApplyAll(cs.ctxs, cs.upds)         \* what the property judges by: the last pushed configuration
+Ctxs == live.ctxs                             \* what the scan runs on
+RefL == ApplyAll(Listener(cs), cs.upds)       \* what the property judges by: the last pushed configuration
+RefCtxs == RefL.ctxs
+RefInsp == RefL.insp
 RefCfg == ApplyAll(cs.cfg, cs.upds)
 
 (* a runtime update: sdsProvider.setValidation / setCertificate / updateConfig -> update(), or a new manager built
    from the updated listener config. The named way to go wrong: the rebuilt context is dropped when "nothing changed" *)
+Dropped(u) == \/ ("StaleOnEqualHash" \in Defects /\ ~HashCovered(u.field))
+              \/ ("InspectorLagsUpdate" \in Defects /\ u.field = "inspector")    \* manager built before the flag is copied
 Push == /\ pc = "accept" /\ todo # <<>>
-        /\ live' = IF "StaleOnEqualHash" \in Defects /\ ~HashCovered(Head(todo).field) THEN live ELSE ApplyUpd(live, Head(todo))
+        /\ live' = IF Dropped(Head(todo)) THEN live ELSE ApplyUpd(live, Head(todo))
         /\ todo' = Tail(todo)
         /\ UNCHANGED <<cs, pc, i, dflt, afirst, chosen, served, result>>
 
 (* serverContextManager.Conn *)
 Accept == /\ pc = "accept" /\ Srv /\ todo = <<>>
           /\ IF ReadyIdx(Ctxs) = {}                      \* !Enabled()
-             THEN IF cs.insp \/ "PlainWhenNotReady" \in Defects
+             THEN IF live.insp \/ "PlainWhenNotReady" \in Defects
                   THEN /\ served' = "plain" /\ pc' = "done"
                        /\ result' = IF cs.first = "plain" THEN "plain" ELSE "fail"
                   ELSE /\ served' = "closed" /\ pc' = "done" /\ result' = "fail"
-             ELSE IF cs.insp /\ cs.first = "plain"       \* Peek(): first byte is not 0x16
+             ELSE IF live.insp /\ cs.first = "plain"       \* Peek(): first byte is not 0x16
                   THEN served' = "plain" /\ pc' = "done" /\ result' = "plain"
                   ELSE served' = "tls" /\ pc' = "hello" /\ result' = result
           /\ UNCHANGED <<cs, live, todo, i, dflt, afirst, chosen>>
@@ -188,14 +195,14 @@ TypeOK == /\ pc \in {"accept", "hello", "scan", "auth", "done"}
           /\ Srv => chosen \in 0..Len(Ctxs)
 
 (* every property is stated against RefCtxs / RefCfg: the configuration after the last push *)
-LastPushWins    == Done => live = (IF Srv THEN RefCtxs ELSE RefCfg)
+LastPushWins    == Done => live = (IF Srv THEN RefL ELSE RefCfg)
 SelectionIsPick == (Srv /\ Done /\ served = "tls" /\ cs.first = "tls") => chosen = Pick(RefCtxs, cs.hello)
 NeverNotReady   == (Srv /\ chosen # 0) => RefCtxs[chosen].ready
 AuthSound == (Srv /\ Done /\ result = "ok") =>
                LET c == RefCtxs[chosen] p == cs.hello.peer IN
                  /\ (c.verify /\ c.require) => PeerValid(p, c.ca)
                  /\ (c.verify /\ p # "none") => PeerValid(p, c.ca)
-PlainOnlyIfInspector == (Srv /\ Done /\ result = "plain") => PlainAllowed(cs.insp)
+PlainOnlyIfInspector == (Srv /\ Done /\ result = "plain") => PlainAllowed(RefInsp)
 TlsServedWhenReady   == (Srv /\ Done /\ cs.first = "tls" /\ Pick(RefCtxs, cs.hello) # 0
                            /\ AuthExpect(RefCtxs[Pick(RefCtxs, cs.hello)], cs.hello.peer) = "ok") => result = "ok"
 UpSound == (~Srv /\ Done /\ result = "ok") =>
